@@ -1,7 +1,7 @@
 (* Lines/Text.v — the character-level vocabulary of the line/file model
    (C11, C16).  A line is the list of its code points (type N), WITHOUT the
-   trailing newline; a file is the list of its lines, i.e. what
-   `contents.splitlines()` returns in node_visitor.BaseNodeVisitor._lines
+   trailing newline; a file is the list of its lines as the tokenizer numbers
+   them, i.e. what node_visitor._split_lines returns for BaseNodeVisitor._lines
    (the "\n" that _lines appends is removed again by every `.strip()`, is
    never part of a searched pattern, and is not a '#').
 
@@ -49,6 +49,13 @@ Fixpoint lstrip (s : list N) : list N :=
   end.
 
 Definition strip (s : list N) : list N := rev (lstrip (rev (lstrip s))).
+
+(* s.rstrip() *)
+Definition rstrip (s : list N) : list N := rev (lstrip (rev s)).
+
+(* s.endswith("\\") *)
+Definition ends_backslash (s : list N) : bool :=
+  match rev s with c :: _ => N.eqb c 92 | [] => false end.
 
 (* analysis_lib.get_indentation: 0 for a blank line, else
    len(line) - len(line.lstrip()) *)
